@@ -163,15 +163,22 @@ func (g *c07Gen) doc() J {
 }
 
 func (g *c07Gen) objectPlain(prefix string) J {
-	return J{"type": "object", "required": []interface{}{prefix + "_r"}, "properties": J{prefix + "_r": J{"type": "string"}, prefix + "_o": J{"type": "integer"}}}
+	o := J{"type": "object", "required": []interface{}{prefix + "_r"}, "properties": J{prefix + "_r": J{"type": "string"}, prefix + "_o": J{"type": "integer"}}}
+	if g.r.Bool() {
+		// the later member is the one that allows additional members
+		o["additionalProperties"] = true
+		g.count("allOf:addl-in-later-member")
+	}
+	return o
 }
 
 // ---------- schema-directed instances ----------
 
 type c07Inst struct {
-	r       *Rng
-	schemas J
-	classes map[string]bool
+	r        *Rng
+	schemas  J
+	classes  map[string]bool
+	noExtras bool
 }
 
 var c07Strings = []string{"", "a", "plain text", "quote\"back\\slash", "line\nbreak\ttab", "é日本😀", "<&>", " ", "null", "0"}
@@ -189,8 +196,37 @@ func (g *c07Inst) value(s J, depth int) interface{} {
 	}
 	if all, ok := s["allOf"].([]interface{}); ok {
 		out := map[string]interface{}{}
-		for _, m := range all {
-			if o, ok := g.value(m.(J), depth).(map[string]interface{}); ok {
+		// additional members must be valid against every member: only one member (a typed one if there is one) supplies
+		// them, none if some member forbids them
+		deref := func(m J) J {
+			for {
+				ref, ok := m["$ref"].(string)
+				if !ok {
+					return m
+				}
+				m = g.schemas[strings.TrimPrefix(ref, "#/components/schemas/")].(J)
+			}
+		}
+		supplier, forbidden := -1, false
+		for i, m := range all {
+			switch ap := deref(m.(J))["additionalProperties"].(type) {
+			case bool:
+				if !ap {
+					forbidden = true
+				} else if supplier < 0 {
+					supplier = i
+				}
+			case J:
+				supplier = i
+				_ = ap
+			}
+		}
+		for i, m := range all {
+			saved := g.noExtras
+			g.noExtras = saved || forbidden || i != supplier
+			v := g.value(m.(J), depth)
+			g.noExtras = saved
+			if o, ok := v.(map[string]interface{}); ok {
 				for k, v := range o {
 					out[k] = v
 				}
@@ -266,13 +302,13 @@ func (g *c07Inst) value(s J, depth int) interface{} {
 		}
 		switch ap := s["additionalProperties"].(type) {
 		case bool:
-			if ap && r.Chance(70) {
+			if ap && !g.noExtras && r.Chance(70) {
 				g.mark("extra-members")
 				out["extra_1"] = r.Pick([]string{"x", "y"})
 				out["extra_2"] = []interface{}{json.Number("1"), map[string]interface{}{"deep": true}}
 			}
 		case J:
-			if r.Chance(70) {
+			if !g.noExtras && r.Chance(70) {
 				g.mark("extra-members")
 				for i := 0; i < 1+r.Intn(2); i++ {
 					out[fmt.Sprintf("extra_%d", i)] = g.value(ap, depth-1)
